@@ -578,6 +578,11 @@ func checkCall(c *harness.Ctx, w *World, call *Call, world string) {
 		return
 	}
 	want := inv.RetsUsed
+	createdDefault = 201
+	if call.Method == "Create" && call.Out.Status != 0 {
+		createdDefault = call.Out.Status
+	}
+	defer func() { createdDefault = 201 }()
 	for i := range call.Rets {
 		exp := deepCopy(want[i])
 		fillDefaults(exp)
